@@ -120,6 +120,12 @@ func c07Cases(tier string, seed int64) []core.Case {
 		}})
 	}
 	cases = append(cases, sharedFlushCases("C07", tier)...)
+	// what a cancelled request's worker does afterwards (it answers late, filling the reply it was given in place or
+	// through the helpers) leaves the requests that came after the Rflush alone
+	for _, dotu := range []bool{true, false} {
+		dotu := dotu
+		cases = append(cases, core.Case{ID: fmt.Sprintf("late-answer-after-cancel/dotu=%v", dotu), Run: func(ctx *core.Ctx) core.Result { return lateAfterCancel(ctx, "C07", dotu) }})
+	}
 	for _, mp := range []int{0, 4} {
 		mp := mp
 		cases = append(cases, core.Case{ID: fmt.Sprintf("flush-after-tversion/maxpend=%d", mp), Run: func(ctx *core.Ctx) core.Result { return c07FlushAfterVersion(ctx, mp) }})
